@@ -323,8 +323,30 @@ public:
     }
 
 
+    // the application notifies while the peripheral sleeps towards the planned central event `planned`
+    void note_notify_in_sleep(long planned) {
+        const char* c = instant_of_pending_procedure(planned) == planned ? "notify_while_sleeping_to_instant_event"
+                        : (instant_of_pending_procedure(planned) >= 0 ? "notify_while_sleeping_with_pending_procedure" : "notify_while_sleeping");
+        verif::mon("C21").cls(c); verif::mon("C22").cls(c); verif::mon("C23").cls(c);
+    }
+    // instant of a procedure the peripheral has stored and whose instant is not before event K (-1: none)
+    long instant_of_pending_procedure(long K) const {
+        const std::vector<sim::procedure>& ps = c->procedures();
+        for (std::size_t i = 0; i < ps.size() && i < pobs.size(); ++i)
+            if (pobs[i].c_rx >= 0 && ps[i].central_applies && ps[i].instant >= K && pobs[i].c_rx < ps[i].instant) return ps[i].instant;
+        return -1;
+    }
+
     void on_disarm(vtime, bool success, std::uint32_t, const sim::sched_rec& r) override {
         if (!connect_seen) return;
+        if (success) {
+            const long K = K_of(r);
+            const long inst = instant_of_pending_procedure(K);
+            const char* c = inst == K ? "pull_back_of_instant_event" : (inst >= 0 ? "pull_back_while_procedure_pending" : nullptr);
+            if (c) { verif::mon("C21").cls(c); verif::mon("C22").cls(c); verif::mon("C23").cls(c); }
+        } else if (instant_of_pending_procedure(K_of(r)) == K_of(r)) {
+            verif::mon("C21").cls("disarm_of_instant_event_refused"); verif::mon("C22").cls("disarm_of_instant_event_refused"); verif::mon("C23").cls("disarm_of_instant_event_refused");
+        }
         if (success) { ++pullbacks; prev = r; if (!recs.empty()) recs.back() = r; verif::mon("C23").count("disarmed_events"); }
         else { ++pullbacks_failed; verif::mon("C23").count("disarm_refused"); }
     }
@@ -569,12 +591,16 @@ private:
             // the event with counter == instant must have been listened to
             M.eval();
             bool listened = false, still_pending = false;
-            for (std::size_t i = static_cast<std::size_t>(idx); i < recs.size() && rec_K[i] == p.instant; ++i) {
+            // (a planned instant event may be disarmed, earlier events attended instead, and the instant event planned again)
+            for (std::size_t i = static_cast<std::size_t>(idx); i < recs.size(); ++i) {
+                if (rec_K[i] != p.instant) continue;
                 if (recs[i].outcome != sim::o_disarmed && recs[i].outcome != sim::o_pending) listened = true;
                 if (recs[i].outcome == sim::o_pending && i + 1 == recs.size()) still_pending = true;
             }
             if (!listened && still_pending) { M.cls("not_judged_scenario_too_short"); continue; }    // the scenario ended while the instant event was scheduled
-            if (rec_K[static_cast<std::size_t>(idx)] != p.instant || !listened) {
+            bool planned = false;
+            for (std::size_t i = static_cast<std::size_t>(idx); i < recs.size() && !planned; ++i) planned = rec_K[i] == p.instant;
+            if (!planned || !listened) {
                 viol("C21", "C21:" + kind + ":instant_event_skipped",
                      head + "no connection event with counter == instant was scheduled (next scheduled: central event " + std::to_string(rec_K[static_cast<std::size_t>(idx)]) + ")");
                 continue;
@@ -653,6 +679,20 @@ private:
                         viol("C21", std::string("C21:phy_update:applied_with_other_parameters") + (data_pending ? ":data_received_while_pending" : ""), head + "radio_set_phy(rx=" + std::to_string(pc->rx) + ", tx=" + std::to_string(pc->tx) + ")");
                         ok = false;
                     }
+                }
+            }
+            if (ok && p.kind == sim::procedure::phy_update) {
+                // the PHYs in force at every scheduled event: old ones before the instant, new ones from the instant on
+                for (std::size_t i = 0; i < recs.size() && ok; ++i) {
+                    const long K = rec_K[i];
+                    if (K <= c_rx) continue;
+                    const sim::event_info& inf = c->info(K);
+                    M.eval();
+                    if (recs[i].rx_phy == inf.phy_c2p && recs[i].tx_phy == inf.phy_p2c) continue;
+                    viol("C21", K < p.instant ? "C21:phy_update:applied_before_instant" : "C21:phy_update:not_in_force_from_instant",
+                         head + "central event " + std::to_string(K) + " scheduled with PHY rx=" + std::to_string(recs[i].rx_phy) + " tx=" + std::to_string(recs[i].tx_phy) +
+                             ", in force at that event: c_to_p=" + std::to_string(inf.phy_c2p) + " p_to_c=" + std::to_string(inf.phy_p2c));
+                    ok = false;
                 }
             }
             if (ok) M.cls("outcome_applied_at_instant");
